@@ -119,10 +119,12 @@ Print Assumptions router_matches_model.
 
 (* no crash: from any storage state, for every assignment of requests to workers the router can produce (same
    (cluster, group) => same queue) with well-formed broker requests (0 <= partition < count), and every schedule.
-   The hypothesis 1 <= intervals: with intervals = 0 (which Configure accepts) ring.New(0) is nil and the first broker offset
-   panics - the model crashes there too (conc_no_crash_needs_intervals below; corpus/C08 last case replays it on the real
-   code).  Who discharges it: the configuration layer - C19 / builder "config" decides whether Configure must refuse
-   intervals < 1; the sequential theorems of C01/C02 carry the same hypothesis. *)
+   The hypothesis 1 <= intervals is discharged by the code itself: InMemoryStorage.Configure refuses a storage module with
+   fewer than one interval (/repo c110ef6; C19's configuration model has the site StorageIntervals), so no accepted
+   configuration violates it; the schedule probe ties this (corpus/C08 last case: intervals = 0 => CONFIG-REFUSED on both
+   sides).  Before c110ef6 Configure accepted 0 and the first broker offset panicked (ring.New(0) is nil): the model still
+   shows that crash when run outside the hypothesis (conc_no_crash_needs_intervals below), which is why the hypothesis is
+   there.  The sequential theorems of C01/C02 carry the same hypothesis. *)
 Theorem conc_no_crash :
   forall cf now st queues prios sched,
     (1 <= cf_intervals cf)%nat ->
@@ -131,7 +133,8 @@ Theorem conc_no_crash :
 Proof. intros cf now st queues prios sched HN. exact (conc_no_crash_proof cf now HN st queues prios sched). Qed.
 Print Assumptions conc_no_crash.
 
-(* the hypothesis is needed: one well-formed broker request, intervals = 0 => crash (model = real code) *)
+(* the hypothesis is needed: one well-formed broker request, intervals = 0 => the model crashes (as the real code did
+   before c110ef6 made Configure refuse that value) *)
 Example conc_no_crash_needs_intervals :
   wf_queues [[SetBrokerOffset 1 1 0 1 50]] /\
   g_crashed (fst (sched_run (mkConfig 0 100000 0 (fun _ => true)) w_now true
